@@ -576,6 +576,7 @@ def main():
 
     results, rep_outs = [], []
     replays = list(pool.map(replay_chunk, range(nrep)))
+    hist = action_histogram(behaviours)      # needs the expected projections: computed before they are dropped
     # the expected projections are on disk now (schedule files) and no longer needed here: in the thorough tier they are
     # several GB of parsed JSON (the kernel killed this process for memory, exit 137)
     for b_ in behaviours:
@@ -707,7 +708,6 @@ def main():
         common.tlc_ok(rf, "MC_Raft3_faults.cfg exhaustive")
         faults_states = {"states": rf.distinct, "transitions": rf.generated, "depth": rf.depth}
         log("TLC MC_Raft3_faults.cfg (crash/restart/drop/dup/heartbeat, one term): %d generated, %d distinct, %.1fs" % (rf.generated, rf.distinct, rf.wall))
-    hist = action_histogram(behaviours)
     cov_zero = [a for a in REQUIRED_ACTIONS if not hist.get(a)]
     log("spec actions exercised by replayed TLC behaviours: %s" % json.dumps(hist, sort_keys=True))
     if cov_zero and not verdict.violations:
